@@ -2,6 +2,9 @@
 C06 — message framing does not depend on how the byte stream is segmented.
 Model: Model/Envelope.lean (`decodeInner` = protocol.rs decode_inner, `Framing` = the
 tokio_util FramedRead loop: append what was read, decode until `None`).
+Second half: the composition with the connection model (Model/Conn.lean) — the frames and the error flag
+the connection level is fed, and hence every run of it, do not depend on the segmentation
+(`C06_conn_log_independent_of_segmentation`, `C06_conn_run_independent_of_segmentation`, `C06_conn_log_of_wf_stream`).
 -/
 import Ldap3V.Lemmas.FramingWF
 import Ldap3V.Lemmas.FramingConn
